@@ -347,7 +347,38 @@ def bounded_interior(ck):
         # exact 42 deg boundary of the mask, built from the reported values
         if not np.array_equal(g.event_mask, (g.costhetaTrSubN >= 0) & (g.betaTrSubN < 42)):
             fails.append({"obligation": "bounded.mask", "clause": "kept <=> upward and beta < 42", "input": {"altitude": alt}, "observed": "mask differs from its definition on the reported values"})
-    # the mask at exactly 42.0 deg: the predicate on crafted reported values
+    # small batches (every batch size is an ordinary input: 4 events x 4 random numbers must not be special)
+    g = native_geom(525.0, 0.3, -1.1, np.radians(7.0))
+    for nb in (1, 2, 3, 4, 5, 7):
+        u = rng.uniform(1e-3, 1 - 1e-3, (4, nb))
+        n += nb
+        r = check_events(g, u)
+        if r is not None:
+            fails.append({"obligation": "bounded.batch_size", "clause": "%s (batch of %d events)" % (r[1], nb), "input": {"altitude": 525.0, "events": nb, "u": u.tolist()}, "observed": r[2]})
+    # history: a second throw on the same object, then positions along the trajectories, against a fresh object; and distances mixed in one call
+    with np.errstate(all="ignore"):
+        ua, ub = rng.uniform(0.05, 0.95, (4, 60)), rng.uniform(0.05, 0.95, (4, 80))
+        g.throw(ua.copy())
+        g.find_lat_long_along_traj(np.zeros(int(g.event_mask.sum())))
+        g.throw(ub.copy())
+        k = int(g.event_mask.sum())
+        got = g.find_lat_long_along_traj(np.zeros(k))
+        f = native_geom(525.0, 0.3, -1.1, np.radians(7.0))
+        f.throw(ub.copy())
+        want = f.find_lat_long_along_traj(np.zeros(k))
+        n += k
+        if not all(np.array_equal(np.asarray(a), np.asarray(b_), equal_nan=True) for a, b_ in zip(got, want)):
+            fails.append({"obligation": "bounded.history", "clause": "positions along the trajectories belong to the latest throw (second throw on one object == fresh object)",
+                          "input": {"altitude": 525.0, "first batch": 60, "second batch": 80, "s": 0.0}, "observed": {"same object": np.asarray(got[0])[:3].tolist(), "fresh object": np.asarray(want[0])[:3].tolist()}})
+        dist = np.where(np.arange(k) % 3 == 0, 0.0, rng.uniform(1.0, 50.0, k))
+        mixed = f.find_lat_long_along_traj(dist.copy())
+        for sval in (0.0, float(dist[1]) if k > 1 else 1.0):
+            idx = np.flatnonzero(dist == sval)
+            alone = f.find_lat_long_along_traj(np.full(k, sval))
+            n += len(idx)
+            if not all(np.allclose(np.asarray(m_)[idx], np.asarray(a)[idx], rtol=0, atol=1e-12, equal_nan=True) for m_, a in zip(mixed, alone)):
+                fails.append({"obligation": "bounded.mixed_distances", "clause": "the position of an event depends on its own distance only (zeros and positive distances mixed in one call)",
+                              "input": {"altitude": 525.0, "events": k, "distance of the compared events": sval}, "observed": {"mixed call": np.asarray(mixed[0])[idx][:3].tolist(), "uniform call": np.asarray(alone[0])[idx][:3].tolist()}})
     return {"evaluations": n, "failures": fails}
 
 
